@@ -5,6 +5,7 @@ import (
 	"fmt"
 	"io"
 	"reflect"
+	"time"
 
 	"verif/e2/spec"
 )
@@ -19,10 +20,17 @@ import (
 // the outcome does not depend on scheduling.
 
 type streamRun struct {
-	payload  any   // non-streamed payload (nil: none)
-	requests []any // streamed payload elements sent by the client
-	replies  []any // streamed results sent by the stub
-	result   any   // non-streamed result returned by the stub (client streaming)
+	payload  any    // non-streamed payload (nil: none)
+	requests []any  // streamed payload elements sent by the client
+	replies  []any  // streamed results sent by the stub
+	result   any    // non-streamed result returned by the stub (client streaming)
+	view     string // view the stub selects with the server stream's SetView ("": none)
+	// on: the generated client to call (zero: the service's default client, one call at a time);
+	// gate, when set, runs inside the service method before it touches the stream (c10reuse.go)
+	// hold, when set, runs in the client interceptor before the RPC starts (only with on)
+	on   reflect.Value
+	gate func()
+	hold func()
 }
 
 type streamObs struct {
@@ -35,6 +43,9 @@ type streamObs struct {
 	cliResult   any
 	cliErr      error
 	cliSendErr  error
+	cliRecvErr  error // the error (not io.EOF) that ended the client stream's Recv loop / CloseAndRecv
+	cliSent     int   // messages the client stream's Send accepted
+	srvSendFail int   // index of the reply the server stream's Send refused (-1: none)
 	call        *Call
 	obs         *GRPCObs
 	herr        error
@@ -52,13 +63,19 @@ func errOf(v reflect.Value) error {
 // streamExchange performs one streaming call.
 func streamExchange(g *GRPCSvc, m *spec.Method, run streamRun) *streamObs {
 	s := g.S
-	so := &streamObs{}
+	so := &streamObs{srvSendFail: -1}
 	reply := func(method string, args []any) []any {
 		so.invoked++
 		if m.Payload != nil && len(args) >= 3 {
 			so.gotPayload = g.GetValue(reflect.ValueOf(args[1]), m.Payload)
 		}
+		if run.gate != nil {
+			run.gate()
+		}
 		st := reflect.ValueOf(args[len(args)-1])
+		if sv := st.MethodByName("SetView"); sv.IsValid() && run.view != "" {
+			sv.Call([]reflect.Value{reflect.ValueOf(run.view)})
+		}
 		if m.StreamPayload != nil {
 			recv := st.MethodByName("Recv")
 			if !recv.IsValid() {
@@ -86,7 +103,7 @@ func streamExchange(g *GRPCSvc, m *spec.Method, run streamRun) *streamObs {
 				so.herr = fmt.Errorf("server stream %s has no Send", st.Type())
 				return []any{nil}
 			}
-			for _, v := range run.replies {
+			for i, v := range run.replies {
 				rv, err := g.NewValue(send.Type().In(0), m.StreamResult, v)
 				if err != nil {
 					so.herr = err
@@ -94,6 +111,7 @@ func streamExchange(g *GRPCSvc, m *spec.Method, run streamRun) *streamObs {
 				}
 				if err := errOf(send.Call([]reflect.Value{rv})[0]); err != nil {
 					so.srvSendErr = err
+					so.srvSendFail = i
 					return []any{err}
 				}
 			}
@@ -126,6 +144,11 @@ func streamExchange(g *GRPCSvc, m *spec.Method, run streamRun) *streamObs {
 		if !st.IsValid() {
 			return nil, fmt.Errorf("harness: the client endpoint returned no stream")
 		}
+		// gRPC streams do not carry the view of a multi-view result: the generated client stream
+		// has a SetView of its own and the caller states the view it expects
+		if sv := st.MethodByName("SetView"); sv.IsValid() && run.view != "" {
+			sv.Call([]reflect.Value{reflect.ValueOf(run.view)})
+		}
 		if m.StreamPayload != nil {
 			send := st.MethodByName("Send")
 			if !send.IsValid() {
@@ -141,6 +164,7 @@ func streamExchange(g *GRPCSvc, m *spec.Method, run streamRun) *streamObs {
 					so.cliSendErr = err
 					break
 				}
+				so.cliSent++
 			}
 		}
 		switch {
@@ -162,6 +186,7 @@ func streamExchange(g *GRPCSvc, m *spec.Method, run streamRun) *streamObs {
 					if errors.Is(err, io.EOF) {
 						return nil, nil
 					}
+					so.cliRecvErr = err
 					return nil, err
 				}
 				so.cliRecv = append(so.cliRecv, g.GetValue(out[0], m.StreamResult))
@@ -171,6 +196,7 @@ func streamExchange(g *GRPCSvc, m *spec.Method, run streamRun) *streamObs {
 			if cr := st.MethodByName("CloseAndRecv"); cr.IsValid() {
 				out := cr.Call(nil)
 				if err := errOf(out[len(out)-1]); err != nil {
+					so.cliRecvErr = err
 					return nil, err
 				}
 				if len(out) == 2 && m.Result != nil {
@@ -197,7 +223,15 @@ func streamExchange(g *GRPCSvc, m *spec.Method, run streamRun) *streamObs {
 		so.sentPayload = g.GetValue(rv, m.Payload)
 		payload = rv.Interface()
 	}
-	_, so.cliErr = g.Invoke(call, obs, m.Name, payload, drive)
+	if run.on.IsValid() {
+		_, so.cliErr = g.InvokeOn(run.on, call, obs, m.Name, payload, drive, run.hold)
+	} else {
+		_, so.cliErr = g.Invoke(call, obs, m.Name, payload, drive)
+	}
+	// the client may be done before the service method is (a client Recv that fails ends the call
+	// while the service is still sending): what the service side observed is read only once the
+	// server handler has returned
+	obs.waitHandlers(5 * time.Second)
 	return so
 }
 
